@@ -47,6 +47,38 @@ def hashtable_part(ctx):
                           {"history": tr, "rejected_at": at})
 
 
+def model_cache_part(ctx):
+    """the cache as SinglePhaseModel uses it: every node of every flux evaluation is looked up under its own key"""
+    from .. import hash_drv as H
+    import copy
+    hist = H.gen_model(ctx.rng, ctx.tier)
+    jobs = [(h, 1 + (i % 2)) for i, h in enumerate(hist)]
+    trs = [H.model_history(h, nsol=n) for h, n in jobs]
+    can = copy.deepcopy(next(t for t in trs if sum(1 for e in t if e["e"] == "get") > 3))
+    k = [i for i, e in enumerate(can) if e["e"] == "get"][2]
+    del can[k]              # one node never looked up
+    reached, r = T.validate("DiffCache_Trace", HT_CONSTS, trs + [can], "diffcache_tr", invariants=["HitSound", "OneEntryPerKey"])
+    ctx.add_tlc(r, "DiffCache_Trace (%d model histories)" % len(trs))
+    if r.violated:
+        ctx.violation("diffcache-invariant:" + r.violated, "invariant violated on a model-level cache trace", {"trace": r.trace_text[:4000]})
+        return
+    if reached[-1] == len(can) + 1:
+        raise MachineryError("binding self-test failed: a model trace with a node that was never looked up was accepted")
+    bad = dict(T.rejected(trs, reached[:-1]))
+    nhit = 0
+    for i, ((h, n), tr) in enumerate(zip(jobs, trs)):
+        ctx.replayed += len(tr) - 1
+        nhit += sum(1 for e in tr if e["e"] == "get" and e["hit"])
+        ctx.case({"model-history": h, "solutes": n}, nontrivial=True, sample={"history": h, "events": tr[:8]} if i < 1 else None)
+        if i in bad:
+            at = bad[i]
+            ev = tr[at - 1] if at - 1 < len(tr) else {"e": "end"}
+            ctx.violation("diffcache:%s" % ev["e"], "model-level cache trace rejected at event %d %r: the node in turn was not looked up under its own composition and temperature, "
+                          "or was served without a hit or a call (history %r)" % (at, ev, h), {"history": h, "events": tr, "rejected_at": at})
+    if nhit == 0:
+        raise MachineryError("vacuity: no cache hit in the model-level histories")
+
+
 def thermo_part(ctx):
     from .. import thermo_drv as TD
     for system, alpha in (("alzr", TD.binary_alphabet()), ("nicral", TD.ternary_alphabet())):
@@ -86,11 +118,16 @@ def run(ctx, replay=None):
                 "HashTable.tla: TLC explores all enable/precision/clear/add/retrieve histories up to length 4; the real HashTable "
                 "executes all length-3 histories over a reduced alphabet plus seeded length 4-10 histories (binary and ternary "
                 "points, precisions 1,2,3,7 incl. int32-overflowing temperature keys) and HashTable_Trace.tla accepts each event "
-                "only if hit/miss, the returned value and the table size equal the specification's.")
+                "only if hit/miss, the returned value and the table size equal the specification's. "
+                "DiffCache_Trace.tla: the cache as SinglePhaseModel uses it -- flux evaluations on profiles with flat stretches under per-node temperatures "
+                "(iso / gradient / temperatures 0.5 K apart), one and two solutes, interleaved with useCache / setHashSensitivity / clearCache; the get/add "
+                "events of the model's own table and the calls reaching the thermodynamics object must be, node by node and in order, what HashTable.tla "
+                "allows: every node looked up under its own key, served by a hit or by a call at exactly its composition and temperature.")
     ctx.assumptions = ["domain points have float keys equal to their exact keys (self-checked every run)",
                        "curvature/impingement queries restricted to points with positive driving force (documented fall-back elsewhere)",
                        "answers compared with rtol 1e-6 (measured solver scatter <= 1e-9)"]
     hashtable_part(ctx)
+    model_cache_part(ctx)
     thermo_part(ctx)
 
 
